@@ -263,6 +263,11 @@ func (f *FSM) MustCopyWithState(state State) *FSM {
 				exists = true
 			}
 		}
+		// Finish states have no outgoing transitions, but a machine stopped
+		// in one of them must still be restorable from its dump.
+		if f.IsFinState(state) {
+			exists = true
+		}
 		if !exists {
 			panic(fmt.Sprintf("cannot set state, not exists  \"%s\" for \"%s\"", state, f.name))
 		}
@@ -454,6 +459,16 @@ func (f *FSM) StatesList() (states []State) {
 		for state := range allStates {
 			states = append(states, state)
 		}
+	}
+
+	return
+}
+
+// FinStatesList returns the finish states of the machine: destination
+// states which are not a source of any transition.
+func (f *FSM) FinStatesList() (states []State) {
+	for state := range f.finStates {
+		states = append(states, state)
 	}
 
 	return
